@@ -61,6 +61,14 @@ def mk_context(vc, client=None, server=None, options=None, layers=None):
     return vc.new("mitmproxy.proxy.context:Context", client=client, server=server, options=options, layers=vc.list(layers or []))
 
 
+def flag_has(st, flag):
+    """`st & flag` is non-empty, for a single-bit Flag member `flag` (symbolic or native state)."""
+    if isinstance(st, SEnum):
+        import z3
+        return SBool((st.t / flag.value) % 2 == 1)
+    return bool(st & flag)
+
+
 def trace_kinds(trace):
     return [type(c).__name__ if not isinstance(c, SObj) else c.cls.__name__ for c in trace]
 
